@@ -30,5 +30,5 @@ CFG = dict(
                  "the .lzma and raw LZMA2 clauses of C03 are not covered by this check",
                  "the theorems are about XzSpec, which is tied to liblzma only by sampling",
                  "C03_out_xz: files below 16 GiB (32-bit backward size field); block decoder hypotheses = C01/C11 for the reference semantics",
-                 "/repo carries the fix patches repo-patches/41..49; on the historical code C03 is false (C03_out_xz_refuted: liblzma rejected every non-empty file)"],
+                 "/repo carries the fix patches /repo 90fabde..49; on the historical code C03 is false (C03_out_xz_refuted: liblzma rejected every non-empty file)"],
 )
